@@ -139,9 +139,9 @@ NOT_APPLICABLE.pop("C08", None)
 CLI_REAL = ["gohlslib Client (all goroutines: primary/stream downloaders, stream and track processors, segment queue, time conversion)",
             "net/http.Client above the transport", "pkg/playlist decoder", "mediacommon fmp4/mpegts readers inside the client"]
 CLI_STUB = ["transport: simulated http.RoundTripper (no TCP/TLS/HTTP framing); latency, reordering and faults drawn from the tape",
-            "origin server: scripted stream model rendered with mediacommon writers and the harness's own playlist emitter",
+            "origin server: scripted stream model (traditional and Low-Latency) rendered with mediacommon writers and the harness's own playlist emitter",
             "clock: testing/synctest fake clock (pacing sleeps, timers, context deadlines)"]
-CLI_ASSUME = COMMON_ASSUME + ["goroutines of the client that are runnable in the same step are ordered by the Go runtime; decisions and oracles only use state at rest",
+CLI_ASSUME = COMMON_ASSUME + ["goroutines of the client that are ready at the same simulated instant are ordered by seeded nanosecond delays at six guarded hand-over points (half of the runs) and otherwise by the Go runtime, which also picks among ready select cases; decisions and oracles only use state at rest",
                               "the origin honours Range headers exactly and resolves URLs per RFC 3986 (Go net/url)"]
 META["C11"] = {"level": "exploration",
    "rule": "each run draws a stream (MPEG-TS or fMP4, 3-14 segments, optional audio renditions, byte-range or whole-file addressing, relative/sub-directory/absolute/query-carrying URIs) and a playlist history (VOD, EVENT, live by simulated time, or scripted per poll: window 1..10, media sequence advancing 0..7 per poll, ENDLIST at any time) and network latencies; the statement's rule is replayed over the ordered request log and the playlist states served. Non-trivial = at least three requests; distinct = distinct signatures of origin + latencies.",
